@@ -202,8 +202,12 @@ def rule_P3_worker(ctx):
     mod = ctx.repo.mod(MP)
     fn = mod.func('solve')
     p = au.params(fn)[0]
+    saves0 = au.calls(fn, 'io.save')
+    ctx.anchor(len(saves0) == 1 and isinstance(saves0[0].args[0], ast.Name),
+               'io.save(<name>, ...) in _multiprocessing.solve')
+    fvar = saves0[0].args[0].id
     fname = [n for n in ast.walk(fn) if isinstance(n, ast.Assign) and
-             ast.unparse(n.targets[0]) == 'fname' and not isinstance(
+             ast.unparse(n.targets[0]) == fvar and not isinstance(
                  n.value, ast.Constant)]
     ctx.anchor(len(fname) == 1, 'output file name in _multiprocessing.solve')
     names = {x.id for x in ast.walk(fname[0].value) if isinstance(x, ast.Name)}
@@ -215,9 +219,20 @@ def rule_P3_worker(ctx):
     saves = au.calls(fn, 'io.save')
     ctx.anchor(len(saves) == 1, 'io.save in _multiprocessing.solve')
     kws = {k.arg: ast.unparse(k.value) for k in saves[0].keywords}
+    res = [n for n in ast.walk(fn) if isinstance(n, ast.Assign) and
+           isinstance(n.targets[0], ast.Tuple) and isinstance(
+               n.value, ast.Call) and ast.unparse(n.value.func) in (
+                   'fct', 'solver.solve') or (
+               isinstance(n, ast.Assign) and isinstance(
+                   n.targets[0], ast.Tuple) and isinstance(
+                       n.value, ast.Call) and n.value.keywords and
+               n.value.keywords[-1].arg is None)]
+    ef_, inf_ = ('efield', 'info')
+    if res:
+        ef_, inf_ = (ast.unparse(e) for e in res[0].targets[0].elts)
     ctx.check('C11.P3.names', '_mp.solve saves its own result',
-              kws.get('efield') == 'efield' and kws.get('info') == 'info' and
-              ast.unparse(saves[0].args[0]) == 'fname',
+              kws.get('efield') == ef_ and kws.get('info') == inf_ and
+              ast.unparse(saves[0].args[0]) == fvar,
               'worker does not save (efield, info) under its output name',
               ctx.where(mod, saves[0]))
 
@@ -292,7 +307,9 @@ def rule_P4(ctx):
     # solver options are copied into the solver input, not shared
     fn = mod.func('solve')
     si = [n for n in ast.walk(fn) if isinstance(n, ast.Assign) and
-          ast.unparse(n.targets[0]) == 'solver_input']
+          isinstance(n.value, ast.Dict) and n.value.keys and
+          n.value.keys[0] is None and 'solver_opts' in
+          ast.unparse(n.value.values[0])]
     ctx.anchor(len(si) == 2, 'solver_input construction in _mp.solve')
     for n in si:
         ok = isinstance(n.value, ast.Dict) and n.value.keys[0] is None and \
